@@ -135,6 +135,8 @@ INDEX = ["cat", "concat", "concatenate", "stack", "split.Tensor", "split", "spli
          "constant_pad_nd", "pad"]
 INDEX_PRIMS = ["where"]
 
+_SCATTER_SRC = [(2, 3), (1, 3), (2, 1), (2, 2), (3,), (2,), (1,), (0,), (), (1, 3, 0), (2, 1, 3), (1, 1, 3), (2, 1, 1),
+                (0, 3), (2, 0), (1, 3, 0)[1:], (1, 0)]
 _LIGHT_DT = ["f32", "i64", "bool", "f16", "u8"]
 
 
@@ -252,7 +254,7 @@ def fam_index(c):
             c.g[name] = ["I", list(ish), idt, vals]
         elif ty == "Tensor" and name in ("src", "source"):
             if base in ("slice_scatter", "select_scatter"):
-                o = c.shape("src_shape", shapes=_OTHER_SHAPES)
+                o = c.shape("src_shape", shapes=_SCATTER_SRC)
                 c.g[name] = T(o, dt, "b")
             elif base == "masked_scatter":
                 c.g[name] = T((7,), dt, "b")
@@ -322,10 +324,13 @@ def fam_index(c):
                     m2.append(v)
             _put(c, name, c.pick(name, [(_lst(v), v) for v in m2]))
         elif name in ("start", "end") and base in ("slice", "slice_scatter"):
-            vals = [1, -1, 5, -5, 0] + ([INT64_MAX] if name == "end" else [])
+            if base == "slice_scatter":
+                vals = [1, -1] if name == "start" else [2, -1, INT64_MAX]
+            else:
+                vals = [1, -1, 5, -5, 0] + ([INT64_MAX] if name == "end" else [])
             _put(c, name, _opt_pick(c, name, has_def, vals, none=True))
         elif name == "step":
-            _put(c, name, _opt_pick(c, name, has_def, [1, 2, 3]))
+            _put(c, name, _opt_pick(c, name, has_def, [2] if base == "slice_scatter" else [1, 2, 3]))
         elif name == "index" and ty in ("int", "SymInt"):
             _put(c, name, c.pick(name, [(str(v), v) for v in (0, 1, -1, 2, -3)]))
         elif name in ("start", "length"):
